@@ -29,6 +29,9 @@ class Pipe:
         self.module = module
         self.scratch = scratch
         self.world = tcenum.World(module, scratch, coverage=coverage, config_over=config_over)
+        # populations of the pipeline family: every index of a choice among <= 12 alternatives is a menu
+        # item (with the default of 6 a module with 7+ callables had callables no enumerated test calls)
+        self.world.index_full_upto = 12
         self.sut = self.world.sut
         self.out_dir = os.path.join(scratch, f"out_{module}")
         os.makedirs(self.out_dir, exist_ok=True)
